@@ -437,6 +437,11 @@ func c07Reads(cs *h.Case, huge bool) {
 		}
 		desc := svc.LookupMethodByName("M").Input()
 		m := PGenMsg(cs.R, pc.Root, PValCfg{NonFinite: true, MaxElems: 5, MaxDepth: 3}, 0)
+		if !huge && cs.R.Chance(20) {
+			if k := pPadTo128(cs.R, m, 0); k > 0 {
+				cs.CoverN("containers_sized_to_a_multiple_of_128", k)
+			}
+		}
 		b := PMarshal(m)
 		if cs.R.Intn(2) == 0 {
 			// field groups in the arbitrary order protobuf-go's default marshalling produces
